@@ -40,7 +40,7 @@ HOSTILE = ['</script>', '</SCRIPT >', '<!-- x', '<script>alert(1)</script>', 'sa
            '/* DATA_PLACEHOLDER */', '/* CSS_PLACEHOLDER */', '{amount}', '{0}', 'Café Ünï 東京', '&amp; <b>', '%s %d', '${x}', '`tick`', 'tab\there',
            ']]>', '\\u003c', "'); drop", '<style>/* CSS_PLACEHOLDER */</style>']
 MERCH = ['Netflix', "Joe's Diner", 'Joes Diner', 'Joe"s Diner', 'A B', 'A_B', 'A  B', "A'B", 'AB', 'Costco', 'Payroll Inc', 'Venmo', 'Fidelity', 'Uber Eats',
-         'Shell </script>', 'Bank /* JS_PLACEHOLDER */', 'Über', 'X', "O'Neil_s", 'O Neils']
+         'Shell </script>', 'Bank /* JS_PLACEHOLDER */', 'Über', 'X', "O'Neil_s", 'O Neils', 'Joes Diner 2', 'Joes_Diner_2', 'A B 2', 'A_B_2', 'A_B_3']
 CATS = [('Food', 'Grocery'), ('Food', 'Restaurant'), ('Bills', 'Rent'), ('Income', 'Salary'), ('Finance', 'Transfer'), ('Unknown', 'Unknown'),
         ('Shopping', ''), ('Travel', 'Air'), ('We</script>ird', 'Sub"q')]
 CURRENCIES = ['${amount}', '{amount} zl', '€{amount}', '£{amount}']
